@@ -75,7 +75,7 @@ var Props = map[string]*PropCfg{
 		Rule: "per sampled (program, value): EVERY cut point 0<=k<len of the reference encoding (all of them up to 4096 bytes; structural boundaries +-1 and 64 samples beyond) x {UnmarshalBebop on an exact-capacity guard-paged slice, DecodeBebop all-at-once + EOF, DecodeBebop under a drawn chunk schedule and reader kind + EOF/ErrUnexpectedEOF, MakeFromBytes every 7th}; oracle: non-nil error, no panic, allocation and step budgets relative to the full valid length; " +
 			"distinct_nontrivial counts distinct (record shape, element kind the cut landed on, decoder variant) triples Extensions: budgets are relative to the bytes GIVEN (the cut); a third of the values of evolved programs are read by the OLDER schema; one value in 16 carries payloads beyond 64 KiB and one in ~40 a GIANT array of 2^17 scalars (cuts then sampled, about 40 MB of input per value).",
 		RandProgs: map[string]int{"quick": 14, "thorough": 60},
-		Runs:      map[string]int{"quick": 1600, "thorough": 20000},
+		Runs:      map[string]int{"quick": 4000, "thorough": 40000},
 		MasksPer:  map[string]int{"quick": 2, "thorough": 3},
 		Assume:    append(append([]string{}, codecAssume...), "arrays/maps whose element can occupy zero bytes on the wire (empty structs) are excluded from C06/C07/C08 populations: for those a large count is a valid encoding"), RealStub: stdRealStub(),
 	},
@@ -90,10 +90,10 @@ var Props = map[string]*PropCfg{
 	},
 	"C08": {
 		ID: "C08", Level: "fault_enumeration", Evolve: true,
-		Rule: "per sampled (program, value): the fault-free run gives W Write calls and B bytes; then EVERY Write call k<W is failed (bare and partial/transient, error value from a menu of 5) plus 8 byte offsets, and EVERY read offset k<B (all up to 2048; boundaries +-1 and samples beyond) is failed bare, with partial data under a drawn chunk schedule, and transiently; oracle: an error returned to the code => non-nil result, no panic, budgets; nil from EncodeBebop => bytes == MarshalBebop; " +
+		Rule: "per sampled (program, value): the fault-free run gives W Write calls and B bytes; then EVERY Write call k<W is failed (bare and partial/transient, error value from a menu of 13 incl. EAGAIN, wrapped EINTR, net-style timeouts, deadline, io.ErrShortWrite) plus 8 byte offsets, and EVERY read offset k<B (all up to 2048; boundaries +-1 and samples beyond) is failed bare, with partial data under a drawn chunk schedule, and transiently; oracle: an error returned to the code => non-nil result, no panic, budgets; nil from EncodeBebop => bytes == MarshalBebop; " +
 			"distinct_nontrivial counts distinct (record shape, fault kind, error value or element kind) triples among faults that actually fired Extensions: the read-fault menu includes a clean io.EOF before the last byte of the record; payloads beyond 64 KiB in one value of 16 (faulted calls then strided to about 40 MB of encoded bytes per value).",
 		RandProgs: map[string]int{"quick": 14, "thorough": 60},
-		Runs:      map[string]int{"quick": 1600, "thorough": 20000},
+		Runs:      map[string]int{"quick": 4000, "thorough": 40000},
 		MasksPer:  map[string]int{"quick": 2, "thorough": 3},
 		Assume:    codecAssume, RealStub: stdRealStub(),
 	},
@@ -118,9 +118,9 @@ var Props = map[string]*PropCfg{
 		ID: "C10", Level: "fault_enumeration", TextOnly: true,
 		RepoInstr: map[string]instrument.Options{".": {MapOrder: true, Step: true, Globals: true}, "internal/importgraph": {MapOrder: true}, "iohelp": {MapOrder: true, Alloc: true, Step: true, Globals: true}},
 		Rule: "ReadFile reading through the simulated link. Inputs: every token string of length 1 and 2 over a 41-token vocabulary exhaustively (length 3 in the thorough tier), printed schemas in varied layouts (indent, CRLF, one-line, comments), the same torn at a random byte, with junk fragments inserted or appended (unterminated comments/strings, stray and non-UTF-8 bytes, partial tokens), token soup. Per input: one fault-free parse under a drawn chunk schedule with the completeness probe (accepted input + one fresh definition must fail or contain it), then a reader failure at EVERY byte offset (inputs <= 400 bytes; 64 sampled offsets beyond) bare, with partial data under a chunk schedule, and transiently, error values from a menu of 4 (wrapped io.EOF excluded). Oracles: no panic; step budget 2e5+200*len on the parser's loops; an error returned by the link => non-nil error from ReadFile; completeness; " +
-			"distinct_nontrivial counts distinct (input origin, outcome, schedule family) and (origin, fault kind, outcome) triples for faults that fired Extensions: semantic soup (well-formed definitions with arbitrary meaning: [flags] expressions over every literal and operator, out-of-range values, opcodes of any form, deep and unknown types) and LARGE inputs padded with comments to 2^16..2^22 bytes +-1.",
+			"distinct_nontrivial counts distinct (input origin, outcome, schedule family) and (origin, fault kind, outcome) triples for faults that fired Extensions: semantic soup (well-formed definitions with arbitrary meaning: [flags] expressions over every literal and operator, out-of-range values, opcodes of any form, deep and unknown types) and LARGE inputs padded with comments to 2^16..2^22 bytes +-1; every string of 1..3 characters over the 13 characters number lexemes are made of (digits, e, E, +, -, ., x, _, f, i, n), bare and as a const value, exhaustively, and random lexeme soup in ten literal positions (const, enum value, message index, flag expression, opcode, string, deprecated text, comment, end of input); error menu also holds EAGAIN, wrapped EINTR, timeouts, deadlines and the io package's own errors.",
 		RandProgs: map[string]int{"quick": 20, "thorough": 80},
-		Runs:      map[string]int{"quick": 3200, "thorough": 90000},
+		Runs:      map[string]int{"quick": 8000, "thorough": 90000},
 		Params:    map[string]map[string]int{"thorough": {"tokens3": 1}},
 		Assume:    []string{"an io.Reader error that wraps io.EOF is not in the fault menu: whether that is an I/O error or an end of file is not settled by the property"},
 		RealStub:  map[string][]string{"real": {"tokenizer and parser of the working tree (instrumented: loop steps, map order)"}, "stub": {"the file: simnet link with chunk schedule and fault trace"}},
